@@ -100,6 +100,7 @@ func (h *c08Hist) critical(me int, lk *c08Lock, spin int, yield bool) {
 
 func TestVerifC08(t *testing.T) {
 	run := vlib.Start(t, "C08")
+	run.SetCaseTimeout(0) // stress rounds and contended histories take seconds; the lock watchdogs below bound them
 	defer run.Finish()
 	defer func(f func()) { yieldFn = f }(yieldFn)
 	yieldFn = runtime.Gosched
@@ -457,6 +458,7 @@ func c08Sequential(run *vlib.Run) {
 // a plain variable. With an effective annotation the detector stays silent.
 func TestVerifC08Calib(t *testing.T) {
 	run := vlib.Start(t, "C08")
+	run.SetCaseTimeout(0) // stress rounds and contended histories take seconds; the lock watchdogs below bound them
 	defer run.Finish()
 	defer func(f func()) { yieldFn = f }(yieldFn)
 	yieldFn = runtime.Gosched
